@@ -114,9 +114,9 @@ func compareIter(it IterAPI, m *ModelIter, after string, checkValue func(pos int
 	}
 	if _, ok := it.(*kv.Iterator); ok {
 		ScribbleKey(k) // a key handed out by the database belongs to the caller
-	} else {
-		ScribbleBehind(k) // the index's own iterators hand out the index's memory: only what lies behind is looked at
 	}
+	// the index's own iterators (C10 level 1) hand out the index's memory; no caller of the database can reach it since
+	// ListKeys, Iterator.Key and Fold hand out copies (950d01c), so nothing is written there
 	return nil
 }
 
